@@ -67,7 +67,7 @@ def gen_case(rng, nat, allsym):
     r = rng.random()
     if r < 0.12:
         case = {"kind": "element", "expr": rng.choice(syms), "natural": natural,
-                "proportion": rng.choice([1, 1, 2, 3, 5, 12])}
+                "proportion": rng.choice([1, 2, 3, 12, 0.5, 0.25, 0.1, 1e-3, 1.5])}
     elif r < 0.4:
         f = rng.choice(C11.POOL) if rng.random() < 0.6 else C11.rand_formula(rng, syms)
         case = {"kind": "substance", "formula": f, "natural": natural, "via": rng.choice(["string", "string", "dict"]),
